@@ -200,7 +200,7 @@ Proof.
   destruct (resolve (sy_pend yc) yc) as [[yr ps] er] eqn:Er. injection H as <- <-.
   assert (Hw2 : forall q w, sview y = Some (q, w, false) -> w <> 2).
   { intros q w Hsv. destruct Hpd as (_ & Hs & _). destruct (Hs _ _ Hsv) as (_ & -> & _). lia. }
-  destruct (step_core_effect s sid _ _ _ _ _ Ec Hwf Hfresh Hw2) as (y1 & pend & acts & Hpop & Hv & He & Hr & Hpr & Harr).
+  destruct (step_core_effect s sid _ _ _ _ _ Ec Hwf Hfresh Hw2) as (y1 & pend & acts & Hpop & Hv & He & Hr & Hpr & Harr & Hlab).
   destruct (resolve_effect s sid _ _ _ _ _ Er) as (acts2 & Hv2 & He2 & Ha2 & Hr2 & Hf2 & Hd2).
   assert (HE : ev_frames (ec ++ er) = emitted acts ++ emitted acts2).
   { rewrite (ev_frames_app s sid), He, He2, Hf2. reflexivity. }
@@ -266,7 +266,7 @@ Proof.
     destruct (lookup sid (se_objs (sess y o))) as [st|] eqn:Els; [|discriminate]. cbn in Erv'. injection Erv' as Hrb Hclo.
     change (mkF (w_seq fr) (negb (w_cl fr =? 0)) (w_pay fr)) with (to_frame fr) in Hown.
     destruct (rb_write (st_rb st) (to_frame fr)) as [[rb' tbc] er'] eqn:Ewr.
-    destruct Hown as (st' & El' & Ec' & Erb').
+    destruct Hown as (st' & El' & Ec' & Erb' & Hquiet).
     destruct tbc.
     + left. assert (Hrvc : rview y2 = Some (rb_close rb', true)).
       { rewrite (rview_def s sid). fold o. rewrite El'. cbn. unfold rv. now rewrite Ec', Erb'. }
@@ -309,7 +309,7 @@ Proof.
     destruct (lookup sid (se_objs (sess y o))) as [st|] eqn:Els; [discriminate|].
     change (mkF (w_seq fr) (negb (w_cl fr =? 0)) (w_pay fr)) with (to_frame fr) in Hown.
     destruct (rb_write (rb_init 0) (to_frame fr)) as [[rb' tbc] er'] eqn:Ewr.
-    destruct Hown as (st' & El' & Ec' & Erb').
+    destruct Hown as (st' & El' & Ec' & Erb' & Hquiet).
     destruct tbc.
     + left. assert (Hrvc : rview y2 = Some (rb_close rb', true)).
       { rewrite (rview_def s sid). fold o. rewrite El'. cbn. unfold rv. now rewrite Ec', Erb'. }
